@@ -29,6 +29,10 @@ QUERIES = {
     "rt_error_2": "(1, 2, %s)" % SIXDROPS,
     "soft_error": "(1, 1 0 div, 2)",
     "uses_args": "(|X| X)",
+    # results that depend on the input: some combinations yield, others (the first, the last) do not
+    "arg_is_1": "?(1 ?eq) 5",
+    "arg_is_2": "?(2 ?eq) 5",
+    "file_has_enum": "?([entry ?TAG_enumeration_type] length 0 ?gt) 6",
 }
 ARGSETS = {
     "none": [],
